@@ -209,4 +209,43 @@ theorem movImm_end_to_end (forms : List Form) (o0 : Reg) (imm : BitVec 64) (p : 
         exact ⟨by simp [decodeBitMasks, s1, s2], s3, s5, s4⟩
   simp [judge, key]
 
+/-! ### refusal, stated as iff: ADD/SUB (immediate) without an explicit shift -/
+
+/-- the class model refuses an immediate exactly when `is_add_sub_imm` (C17: `addsub_sound` / `addsub_complete` - the
+value is `imm12 LSL (0|12)` for some imm12) says it has no encoding -/
+theorem addSubImmFields_none_iff (imm : BitVec 64) : addSubImmFields imm 0 = none ↔ isAddSubImm imm = false := by
+  unfold addSubImmFields isAddSubImm
+  by_cases hbig : imm.toNat > 0xFFF
+  · have hle : imm.ule 0xFFF#64 = false := by simp [BitVec.ule]; omega
+    by_cases hz : imm &&& ~~~0xFFF000#64 = 0#64
+    · simp [hbig, hle, hz]
+    · simp [hbig, hle, hz]
+  · have hle : imm.ule 0xFFF#64 = true := by simp [BitVec.ule]; omega
+    simp [hbig, hle]
+
+/-- with `lsl #12` only a 12-bit value is accepted -/
+theorem addSubImmFields_shift12_none_iff (imm : BitVec 64) : addSubImmFields imm 1 = none ↔ imm.toNat > 0xFFF := by
+  unfold addSubImmFields
+  by_cases hbig : imm.toNat > 0xFFF <;> simp [hbig]
+
+/-- `mov Rd, #imm` never refuses a value: for a W/X register with an id 0..30 every 64-bit immediate is accepted
+(and, by `movImm_end_to_end`, loaded correctly) - the only refusals are a wrong register type or id. -/
+theorem movImm_total (o0 : Reg) (imm : BitVec 64) (hrt : o0.rt = rtGp32 ∨ o0.rt = rtGp64) (hid : o0.id < 31) :
+    ∃ ws, emitMovImm o0 imm = .ok ws := by
+  have hz : checkGpId o0 idZR = true := by unfold checkGpId; simp [hid]
+  have hs : checkGpId o0 idSP = true := by unfold checkGpId; simp [hid]
+  have hx : ¬ (o0.rt + 2 ^ 32 - 5) % 2 ^ 32 > 1 := by rcases hrt with h | h <;> simp [h, rtGp32, rtGp64]
+  unfold emitMovImm
+  simp only [hx, if_false, hz, hs, Bool.not_true, Bool.false_eq_true]
+  (repeat' split) <;> exact ⟨_, rfl⟩
+
+theorem movImm_refuses_bad_id (o0 : Reg) (imm : BitVec 64) (hbad : 31 ≤ o0.id ∧ o0.id ≠ idSP ∧ o0.id ≠ idZR) :
+    ∀ ws, emitMovImm o0 imm ≠ .ok ws := by
+  intro ws
+  have hz : checkGpId o0 idZR = false := by unfold checkGpId; simp; omega
+  have hs : checkGpId o0 idSP = false := by unfold checkGpId; simp; omega
+  unfold emitMovImm
+  simp only [hz, hs, Bool.not_false, if_true]
+  (repeat' split) <;> simp [invalidPhysId, invalidInstruction]
+
 end AsmjitVerif.C02
